@@ -701,6 +701,7 @@ pub fn evaluate(property: &str, v: &View) -> Vec<Violation> {
         "C08" => crate::oracle2::c08(v),
         "C11" => crate::oracle5::c11(v),
         "C12" => crate::oracle2::c12(v),
+        "C13" => crate::oracle7::c13(v),
         "C14" => crate::oracle6::c14(v),
         _ => vec![],
     }
@@ -806,6 +807,11 @@ pub fn nontrivial(property: &str, v: &View, s: &RunStats) -> bool {
             let big_flight = v.out.plan.cfg.cert_size >= 3000;
             let replied = v.out.net.hosts.iter().find(|h| h.idx == u32::MAX).map_or(false, |a| v.out.net.log.iter().any(|r| r.dst == a.addr));
             (big_flight && !v.out.obs.rx.is_empty()) || replied
+        }
+        "C13" => {
+            // ids were issued beyond the handshake one and something forced a change of ids:
+            // a retirement, a rebinding or a lost NEW/RETIRE_CONNECTION_ID frame
+            p("new_connection_id_sent") > 0 && (p("retire_connection_id_sent") > 0 || s.faults_fired > 0)
         }
         "C14" => {
             // the rewritten block reached the peer
